@@ -38,3 +38,10 @@ Theorem C06_source_time_range_validate : forall hhmmss_ok (t : time_range) (vr :
   = (vr ++ map SrcValidateClaims.goi (v_time_range hhmmss_ok t))%list.
 Proof. exact vc_time_range. Qed.
 Print Assumptions C06_source_time_range_validate.
+
+(* external authorization settings of an account *)
+Theorem C06_source_ext_auth_validate : forall role_of (a : ext_auth) (vr : list go_issue),
+  SrcValidateClaims.V2.ExternalAuthorization_Validate (ea_accounts a) (ea_users a) (ea_xkey a) (is_acct role_of) (is_curve role_of) (is_user role_of) vr
+  = (vr ++ map SrcValidateClaims.goi (v_ext_auth role_of a))%list.
+Proof. exact vc_ext_auth. Qed.
+Print Assumptions C06_source_ext_auth_validate.
